@@ -174,7 +174,7 @@ Proof.
     unfold ps_ack. rewrite Ha. tcb_simpl. rewrite Est. cbn [negb].
     rewrite Hnx, Hi, Hun, Hack, ack_not_bad, ack_acceptable by assumption. rewrite Hsy.
     unfold ps_rst. rewrite Hr. cbn [negb]. unfold ps_syn. rewrite Hsy. cbn [negb].
-    rewrite Est. cbn [state_eqb]. reflexivity.
+    tcb_simpl. rewrite Est. cbn [state_eqb]. reflexivity.
   - reflexivity.
 Qed.
 
@@ -209,7 +209,6 @@ Proof.
     cbn [set_oneshot st state_eqb]. rewrite ps_text_nil, ps_fin_nofin by exact Hf.
     reflexivity.
   - reflexivity.
-  - reflexivity.
 Qed.
 
 (* a SYN-bearing segment at RCV.NXT-1 whose ACK acknowledges nothing new, in ESTABLISHED *)
@@ -237,7 +236,6 @@ Proof.
     change (st t0) with (st t). rewrite Est.
     rewrite enqueue_plain by apply ack_hdr_plain. reflexivity.
   - reflexivity.
-  - reflexivity.
 Qed.
 
 (* the ACK of our SYN-ACK in SYN-RECEIVED *)
@@ -263,16 +261,144 @@ Proof.
     unfold ps_ack. rewrite Ha. cbn [negb]. change (st t0) with (st t). rewrite Est.
     change (snd_una t0) with (snd_una t). change (snd_nxt t0) with (snd_nxt t).
     rewrite Hun, Hnx, Hack, ack_acceptable by assumption.
-    set (ta := set_snd_window (set_st t0 Established) (h_wnd h) (h_seq h) (wadd iss 1)).
+    set (ta := set_snd_window (set_st t0 Established) _ _ _).
     unfold ack_est. change (snd_una ta) with (snd_una t). change (snd_nxt ta) with (snd_nxt t).
-    rewrite Hun, Hnx, mod_leq_succ by assumption. unfold mod_gt. rewrite mod_lt_irrefl.
+    rewrite ?Hack, ?Hun, ?Hnx. rewrite mod_leq_succ by assumption. unfold mod_gt. rewrite mod_lt_irrefl.
     set (tb := remove_acked _ _).
-    change (snd_wl1 tb) with (h_seq h). change (snd_wl2 tb) with (wadd iss 1).
+    change (snd_wl1 tb) with (h_seq h). change (snd_wl2 tb) with (snd_wl2 ta).
+    subst ta. tcb_simpl. rewrite ?Hack.
     rewrite Z.eqb_refl, mod_leq_refl, orb_true_r.
     unfold ps_rst. rewrite Hr. cbn [negb]. unfold ps_syn. rewrite Hsy. cbn [negb].
     cbn [set_snd_window st state_eqb]. rewrite ps_text_nil, ps_fin_nofin by exact Hf.
-    f_equal. f_equal. subst tb ta t0. unfold remove_acked. tcb_simpl.
+    f_equal. f_equal. subst tb t0. unfold remove_acked. tcb_simpl. rewrite ?Hack.
     rewrite Hretx. cbn [filter]. rewrite Htxs, Htxl, mod_lt_irrefl. reflexivity.
   - reflexivity.
+Qed.
+
+(* ---------- simultaneous open ---------- *)
+(* a SYN without ACK in SYN-SENT: SYN-RECEIVED, and the SYN-ACK joins the retransmission queue *)
+Lemma syn_in_synsent t h :
+  st t = SynSent -> in_segs t = [] -> snd_una t = snd_iss t -> syn_only h ->
+  let t1 := set_snd_window (set_rcv_nxt (set_rcv_irs (set_in_segs t []) (h_seq h)) (wadd (h_seq h) 1))
+                           (h_wnd h) (h_seq h) (h_ack h) in
+  let t2 := set_st t1 SynReceived in
+  let sa := hb_wnd (hb_ack (hb_syn (hb t2 (snd_iss t2))) (rcv_nxt t2)) (rcv_wnd t2) in
+  segment_arrives t (mkSeg h []) = Ok (set_retx t2 (retx t ++ [mkTx (mkSeg sa []) true]), AOk).
+Proof.
+  intros Est Hs Hun (Hsy & Ha & Hr & Hf) t1 t2 sa.
+  eapply arrives_one; try assumption; try reflexivity.
+  - now rewrite Est.
+  - unfold process_segment. tcb_simpl. rewrite Est.
+    unfold ps_ack. rewrite Ha. cbn [negb].
+    unfold ps_rst. rewrite Hr. cbn [negb]. unfold ps_syn. rewrite Hsy. cbn [negb].
+    tcb_simpl. rewrite Est. fold t1.
+    change (snd_una t1) with (snd_una t). change (snd_iss t1) with (snd_iss t).
+    rewrite Hun. unfold mod_gt. rewrite mod_lt_irrefl. fold t2.
+    rewrite enqueue_synack. reflexivity.
+  - reflexivity.
+Qed.
+
+(* a duplicate SYN (no ACK) with an empty heap, any state but SYN-SENT *)
+Lemma dup_syn_arrives t h :
+  state_eqb (st t) SynSent = false -> in_segs t = [] ->
+  u32 (h_seq h) -> rcv_nxt t = wadd (h_seq h) 1 -> rcv_wnd t = 65535 -> syn_only h ->
+  segment_arrives t (mkSeg h []) =
+  Ok (set_oneshot (set_in_segs t []) (oneshot t ++ [ack_hdr t]), AOk).
+Proof.
+  intros Hss Hs Hu Hr Hw Hh.
+  eapply arrives_one; try assumption; try reflexivity.
+  - rewrite Hss. cbn [negb andb]. rewrite Hr. unfold mod_gt. apply mod_lt_succ_l.
+  - rewrite (process_dup_syn (set_in_segs t []) h); try assumption.
+    rewrite enqueue_plain by apply ack_hdr_plain. reflexivity.
+  - reflexivity.
+Qed.
+
+Definition covers_syn (iss : Z) (tx : transmit) : Prop :=
+  h_seq (s_hdr (t_seg tx)) = iss /\ seg_len (t_seg tx) = 1.
+
+Lemma filter_acked_syn iss l : Forall (covers_syn iss) l ->
+  filter (fun tx => mod_lt (wadd iss 1) (wadd (h_seq (s_hdr (t_seg tx))) (seg_len (t_seg tx)))) l = [].
+Proof.
+  induction 1 as [|tx l [H1 H2] _ IH]; cbn [filter]; [reflexivity|].
+  now rewrite H1, H2, mod_lt_irrefl.
+Qed.
+
+(* the ACK of our SYN(s) in SYN-RECEIVED, whatever SYN-bearing segments are queued *)
+Lemma ack_in_synrcvd_all t h iss :
+  st t = SynReceived -> in_segs t = [] -> rcv_wnd t = 65535 -> u32 (rcv_nxt t) ->
+  u32 iss -> snd_una t = iss -> snd_nxt t = wadd iss 1 ->
+  Forall (covers_syn iss) (retx t) ->
+  ack_only h -> h_seq h = rcv_nxt t -> h_ack h = wadd iss 1 ->
+  segment_arrives t (mkSeg h []) =
+  Ok (set_snd_window (set_retx (set_snd_una (set_st (set_in_segs t []) Established) (wadd iss 1)) [])
+                     (h_wnd h) (h_seq h) (h_ack h), AOk).
+Proof.
+  intros Est Hs Hw Hu Hi Hun Hnx Hretx (Ha & Hr & Hsy & Hf) Hseq Hack.
+  set (t0 := set_in_segs t []).
+  eapply arrives_one; try assumption; try reflexivity.
+  - rewrite Est. cbn [state_eqb negb andb]. tcb_simpl. rewrite Hseq. apply mod_gt_refl_false.
+  - fold t0. unfold process_segment. tcb_simpl. change (st t0) with (st t). rewrite Est, Hsy, Hf.
+    assert (Hok : is_seq_ok t0 (zlen (@nil Z)) (h_seq h) false false = true).
+    { unfold is_seq_ok. cbn [b2z zlen length]. change (Z.of_nat 0 + 0 + 0 =? 0) with true. cbn iota.
+      change (rcv_wnd t0) with (rcv_wnd t). rewrite Hw. cbn [Z.eqb].
+      rewrite Hseq. apply (in_window_at_nxt t0); assumption. }
+    rewrite Hok. cbn [negb].
+    unfold ps_ack. rewrite Ha. cbn [negb]. change (st t0) with (st t). rewrite Est.
+    change (snd_una t0) with (snd_una t). change (snd_nxt t0) with (snd_nxt t).
+    rewrite Hun, Hnx, Hack, ack_acceptable by assumption.
+    set (ta := set_snd_window (set_st t0 Established) _ _ _).
+    unfold ack_est. change (snd_una ta) with (snd_una t). change (snd_nxt ta) with (snd_nxt t).
+    rewrite ?Hack, ?Hun, ?Hnx. rewrite mod_leq_succ by assumption. unfold mod_gt. rewrite mod_lt_irrefl.
+    set (tb := remove_acked _ _).
+    change (snd_wl1 tb) with (h_seq h). change (snd_wl2 tb) with (snd_wl2 ta).
+    subst ta. tcb_simpl. rewrite ?Hack.
+    rewrite Z.eqb_refl, mod_leq_refl, orb_true_r.
+    unfold ps_rst. rewrite Hr. cbn [negb]. unfold ps_syn. rewrite Hsy. cbn [negb].
+    cbn [set_snd_window st state_eqb]. rewrite ps_text_nil, ps_fin_nofin by exact Hf.
+    f_equal. f_equal. subst tb t0. unfold remove_acked. tcb_simpl. rewrite ?Hack.
+    rewrite filter_acked_syn by exact Hretx. reflexivity.
+  - reflexivity.
+Qed.
+
+(* the peer's SYN-ACK in SYN-RECEIVED (simultaneous open): ESTABLISHED, then the SYN is
+   acknowledged and discarded *)
+Lemma synack_in_synrcvd t h iss :
+  st t = SynReceived -> in_segs t = [] -> rcv_wnd t = 65535 ->
+  u32 (h_seq h) -> rcv_nxt t = wadd (h_seq h) 1 ->
+  u32 iss -> snd_una t = iss -> snd_nxt t = wadd iss 1 ->
+  Forall (covers_syn iss) (retx t) ->
+  c_syn (h_ctl h) = true -> c_ack (h_ctl h) = true -> c_rst (h_ctl h) = false -> c_fin (h_ctl h) = false ->
+  h_ack h = wadd iss 1 ->
+  let t1 := set_snd_window (set_retx (set_snd_una (set_st (set_in_segs t []) Established) (wadd iss 1)) [])
+                           (h_wnd h) (h_seq h) (h_ack h) in
+  segment_arrives t (mkSeg h []) = Ok (set_oneshot t1 (oneshot t ++ [ack_hdr t1]), AOk).
+Proof.
+  intros Est Hs Hw Hu Hrn Hi Hun Hnx Hretx Hsy Ha Hr Hf Hack t1.
+  set (t0 := set_in_segs t []).
+  eapply arrives_one; try assumption; try reflexivity.
+  - rewrite Est. cbn [state_eqb negb andb]. tcb_simpl. rewrite Hrn. unfold mod_gt. apply mod_lt_succ_l.
+  - fold t0. unfold process_segment. tcb_simpl. change (st t0) with (st t). rewrite Est, Hsy, Hf.
+    assert (Hok : is_seq_ok t0 (zlen (@nil Z)) (h_seq h) true false = true).
+    { unfold is_seq_ok. cbn [b2z zlen length]. change (Z.of_nat 0 + 0 + 1 =? 0) with false. cbn iota.
+      change (rcv_wnd t0) with (rcv_wnd t). rewrite Hw. cbn [Z.eqb].
+      rewrite (in_window_before t0 (h_seq h)) by assumption. reflexivity. }
+    rewrite Hok. cbn [negb].
+    unfold ps_ack. rewrite Ha. cbn [negb]. change (st t0) with (st t). rewrite Est.
+    change (snd_una t0) with (snd_una t). change (snd_nxt t0) with (snd_nxt t).
+    rewrite Hun, Hnx, Hack, ack_acceptable by assumption.
+    set (ta := set_snd_window (set_st t0 Established) _ _ _).
+    unfold ack_est. change (snd_una ta) with (snd_una t). change (snd_nxt ta) with (snd_nxt t).
+    rewrite ?Hack, ?Hun, ?Hnx. rewrite mod_leq_succ by assumption. unfold mod_gt. rewrite mod_lt_irrefl.
+    set (tb := remove_acked _ _).
+    change (snd_wl1 tb) with (h_seq h). change (snd_wl2 tb) with (snd_wl2 ta).
+    subst ta. tcb_simpl. rewrite ?Hack.
+    rewrite Z.eqb_refl, mod_leq_refl, orb_true_r.
+    assert (Etb : set_snd_window tb (h_wnd h) (h_seq h) (wadd iss 1) = t1).
+    { subst tb t1 t0. unfold remove_acked. tcb_simpl. rewrite ?Hack.
+      rewrite filter_acked_syn by exact Hretx. reflexivity. }
+    rewrite Etb.
+    unfold ps_rst. rewrite Hr. cbn [negb]. unfold ps_syn. rewrite Hsy. cbn [negb].
+    change (st t1) with Established. cbn iota.
+    rewrite enqueue_plain by apply ack_hdr_plain. reflexivity.
   - reflexivity.
 Qed.
